@@ -13,7 +13,8 @@ EXTENDS Integers, Sequences, FiniteSets, TLC, Json, SequencesExt, FiniteSetsExt
 CONSTANTS
     Ups,            \* upstream names, e.g. {"X","Y"}
     DataIds,        \* {"A","B"}
-    PreReg,         \* data ids pre-registered at open (aliases 1..n in this order): a sequence, e.g. <<"A">>
+    PreReg,         \* data ids the application asks to pre-register at open (WithDownstreamDataIDs): a sequence, possibly with repetitions
+    DedupPreReg,    \* TRUE = a data id listed more than once is registered once (fixed code); FALSE = one alias per list position (as coded at the pinned commit)
     MaxChunks,
     Readers,        \* reader processes
     Cap,            \* capacity of the stream's chunk channel (1024 in the code; small here to reach the overflow branch)
@@ -29,7 +30,16 @@ View == s
 PreRegA == <<"A">>
 PreRegNone == <<>>
 
-PreRegMap == [i \in 1..Len(PreReg) |-> PreReg[i]]
+PreRegAA == <<"A", "A">>
+PreRegABA == <<"A", "B", "A">>
+
+\* OpenDownstream: aliases 1..n for the listed data ids, in list order
+RECURSIVE FirstOnly(_)
+FirstOnly(q) == IF q = <<>> THEN <<>>
+                ELSE LET f == FirstOnly(SubSeq(q, 1, Len(q) - 1)) x == q[Len(q)]
+                     IN IF \E i \in 1..Len(f) : f[i] = x THEN f ELSE Append(f, x)
+PreRegMap == IF DedupPreReg THEN FirstOnly(PreReg) ELSE PreReg
+NPre == Len(PreRegMap)
 
 Init0 ==
   [ sent |-> <<>>,          \* broker: chunks sent [k, up, upF ("info"|"alias"), upAl, id, idF, idAl, conn]
@@ -60,7 +70,7 @@ BSend(u, uf, ua, d, df, da) ==
     /\ s.alive /\ s.cstatus = "connected" /\ s.runst = "running" /\ s.nsent < MaxChunks /\ s.cst = "idle" /\ ~s.closed
     /\ (uf = "alias" => (ua \in s.bKnownUp \/ (Bogus /\ ua = 99)))
     /\ (uf = "info" => ua = 0)
-    /\ (df = "al" => (da \in s.bKnownId \/ da \in 1..Len(PreReg) \/ (Bogus /\ da = 99)))
+    /\ (df = "al" => (da \in s.bKnownId \/ da \in 1..NPre \/ (Bogus /\ da = 99)))
     /\ (df = "id" => da = 0)
     \* when an alias is used the names are what the client announced for it (the broker echoes its own table)
     /\ (uf = "alias" /\ ua # 99 => s.upAl[ua] = u)
@@ -215,7 +225,7 @@ TimesAnnId(x, a) == Cardinality({ i \in 1..Len(x.bAcks) : a \in x.bAcks[i].ids }
 AnnounceAtMostOnce == (\A a \in 1..Len(s.upAl) : TimesAnnUp(s, a) <= 1) /\ (\A a \in 1..Len(s.idAl) : TimesAnnId(s, a) <= 1)
 AnnounceAllAtClose == (s.cst = "done" /\ s.faults = 0) =>
                         /\ \A a \in 1..Len(s.upAl) : TimesAnnUp(s, a) = 1
-                        /\ \A a \in (Len(PreReg) + 1)..Len(s.idAl) : TimesAnnId(s, a) = 1
+                        /\ \A a \in (NPre + 1)..Len(s.idAl) : TimesAnnId(s, a) = 1
 \* the last acks precede the close request
 NoAckAfterClose == s.closeSeen > 0 => Len(s.bAcks) < s.closeSeen
 
